@@ -38,7 +38,7 @@ ASSUMPTIONS = ['all lookups see the table as it was before the request (the docs
                'no trace, acceptance is not judged',
                'values are right-typed for their column except in the labelled conversion class']
 BUDGET = {'quick': dict(examples=3600, shards=12, max_seconds=32),
-          'thorough': dict(examples=64000, shards=16, max_seconds=420)}
+          'thorough': dict(examples=52000, shards=16, max_seconds=1800)}
 SHRINK_BUDGET = {'quick': 120, 'thorough': 400}
 
 TABLE = 'Tab1'
